@@ -19,12 +19,17 @@ import (
 	"github.com/innovationb1ue/RedisGO/server"
 )
 
+// apiUnsubscribe: ChanMap.UnSubscribe of c's subscription to ch through the internal API of memdb
+// (api.go). nil in the command-level build (harness_pubsub_cmd), which uses nothing but
+// server.NewManager / Manager.Handle and the command registration.
+var apiUnsubscribe func(env *srvEnv, ch string, c *client)
+
 var registered = false
 
 func setupServer(scratch string) *config.Config {
 	cfg := &config.Config{
 		Host: "127.0.0.1", Port: 0, LogDir: scratch, LogLevel: "panic",
-		ShardNum: 16, ChanBufferSize: 10, Databases: 1,
+		ShardNum: 16, ChanBufferSize: 10, Databases: 2,
 	}
 	config.Configures = cfg
 	if !registered {
@@ -309,6 +314,17 @@ var errServerClosed = fmt.Errorf("the server closed the connection before replyi
 // this connection before, so once it is read nothing earlier is still in flight.
 func (c *client) barrier(d time.Duration) error {
 	if err := c.command(d, []byte("verifbarrier")); err != nil {
+		return err
+	}
+	c.mu.Lock()
+	c.cuts = append(c.cuts, c.replies[c.sent-1])
+	c.mu.Unlock()
+	return nil
+}
+
+// silent sends a command whose reply the model does not know about (SELECT) and cuts the reply out.
+func (c *client) silent(d time.Duration, args ...[]byte) error {
+	if err := c.command(d, args...); err != nil {
 		return err
 	}
 	c.mu.Lock()
